@@ -37,7 +37,8 @@ MANIFEST = dict(
          "after cancel and a successful engine run.",
     note="Every cell runs on afero.MemMapFs and on afero.OsFs (real files in the check's scratch dir; double Close, "
          "descriptor leaks, real Seek/Read), with rotating file layouts (no final newline, 5 KB padding per entry, relative "
-         "path). Bounds: entries 1..3 (rings with weights up to 6:3:3 in the thorough tier), limit 0..4, passes 0..3, "
+         "path, in-file header lines, an entry of 70 000 / 200 000 bytes with maxammosize raised, minimal read buffer) and a "
+         "fingerprint of every delivered ammo (same entry = same ammo in every pass). Bounds: entries 1..3 (rings with weights up to 6:3:3 in the thorough tier), limit 0..4, passes 0..3, "
          "consumers 1..3, cut after 1 item or after 2E+3. Hang rule: no progress for 5 s (normal: microseconds), "
          "confirmed by a second run. Well-formed files only; the renderers and the projection "
          "(harness/cmd/vdrive/ammoprov_render.go) are trusted. Buffered sinks are abstracted to capacity 1-2 in "
@@ -109,6 +110,12 @@ def describe(o, inv):
     if inv == "EndOfAmmo":
         return base + "%d of %d consumers observed ok=false; after cancel: drained %d, sink closed: %s" % (
             o["eofs"], o["nc"], o["drained"], o["eof_after"])
+    if inv == "Stable":
+        return base + "%d entr(y/ies) did not look the same every time they were delivered (%d items delivered)" % (
+            o["variants"], o["count"])
+    if inv == "RejectOK":
+        return base + "entry over the size limit behind %d entries: Run returned=%s class=%s (%r), %d of %d consumers saw ok=false, %d delivered" % (
+            o["over_at"], o["run_ret"], o["run_class"], o["run_err"], o["eofs"], o["nc"], o["count"])
     if inv == "NoFdLeak":
         return base + "the driver process held %d open descriptors before its first cell and %d after this one" % (
             o["fds0"], o["fds"])
@@ -255,7 +262,10 @@ def run(tier, v):
         "return_after_cancel_us_median_max": [ret[len(ret) // 2], ret[-1]] if ret else [],
         "config_routes": sorted({o["via"] + "/" + o["shape"] for o in rows}),
         "file_systems": sorted({o["fs"] for o in rows}),
-        "file_layouts": sorted({o["layout"] for o in rows}),
+        "file_layouts": len({o["layout"] for o in rows}),
+        "oversize_entry_runs": sum(1 for o in rows if "+over" in o["layout"] and not o["reject"]),
+        "oversize_multi_pass_runs": sum(1 for o in rows if "+over" in o["layout"] and not o["reject"] and o["count"] > len(o["w"])),
+        "size_limit_control_runs": sum(1 for o in rows if o["reject"]),
         "max_open_fds_over_baseline": max(o["fds"] - o["fds0"] for o in rows),
         "trace_spec_states": tr.distinct,
         "driver_wall_s": round(drv_wall, 1),
